@@ -7,6 +7,7 @@
 package c12
 
 import (
+	"io"
 	"bytes"
 	"fmt"
 	"os"
@@ -321,7 +322,15 @@ func runCase(c cfg, s script) error {
 					buf := make([]byte, 0, 256)
 					for _, p := range mine {
 						buf = append(buf[:0], p...)
-						n, e := h.Write(buf)
+						var n int
+						var e error
+						if w%2 == 1 {
+							// text through the handle the way io.WriteString / io.MultiWriter / fmt.Fprint do it
+							// (a StringWriter if the handle is one, else Write)
+							n, e = io.WriteString(h, string(buf))
+						} else {
+							n, e = h.Write(buf)
+						}
 						if err := checkRet(n, e, len(p)); err != nil {
 							mu.Lock()
 							if werr == nil {
@@ -590,6 +599,8 @@ func strangeName(t *rapid.T, name string) {
 	}
 }
 
+var longDrainDone bool
+
 // TestC12_Restart: a logger value used directly may be stopped and started again; in every life raw
 // writes reach the appender verbatim, once, in order, and are all there when Stop returns.
 func TestC12_Restart(t *testing.T) {
@@ -599,6 +610,12 @@ func TestC12_Restart(t *testing.T) {
 		async := rapid.Bool().Draw(t, "async")
 		lives := rapid.IntRange(2, 4).Draw(t, "lives")
 		delayUS := rapid.SampledFrom([]int{0, 50, 500}).Draw(t, "appenderDelayUS")
+		// once per run: a backlog that takes several seconds to drain (90 writes at 40 ms each) - Stop
+		// waits for all of it, however long that is
+		longDrain := !longDrainDone
+		if longDrain {
+			longDrainDone, async, lives, delayUS = true, true, 1, 40000
+		}
 		rec := &vk.RecAppender{AppenderBase: log.AppenderBase{Name: "rr"}}
 		_ = rec.Start()
 		if delayUS > 0 {
@@ -620,6 +637,9 @@ func TestC12_Restart(t *testing.T) {
 				t.Fatalf("VERIF-VIOLATION C12: Start #%d of the same logger value failed: %v", life+1, err)
 			}
 			n := rapid.IntRange(0, 40).Draw(t, "writes")
+			if longDrain {
+				n = 90
+			}
 			var want [][]byte
 			for i := 0; i < n; i++ {
 				b := []byte(fmt.Sprintf("life%d-%d|%s\n", life, i, strings.Repeat("z", (i*37)%300)))
